@@ -38,11 +38,15 @@ def specIo (set : Bool) (σ : St) : Op → Option (St × Res)
        else some (upd σ k ((σ k).erase v), .bool ((σ k).contains v)))
     else none
   | .cnt k => some (σ, .nat (σ k).length)
+  -- a put / add with a non-bytes value is rejected without effect; a pin too IF the tree makes pin atomic (probed flag)
+  | .bad isPin k => if isPin && !Hio.Gen.pinAtomic then none
+    else some (σ, .raise (if validKey (suffix k 0) then .typeError else .badValsize))
   | _ => none
 
 def opKey : Op → Option Bytes
   | .put k _ | .pin k _ | .add k _ | .putL k _ | .pinL k _ | .get k | .iter k | .first k | .last k | .pop k | .rem k
   | .remv k _ | .cnt k => some k
+  | .bad _ k => some k
   | .cntAll | .items | .itemsTop _ | .fullItems _ | .trim _ => none
 
 /-- how many ordinals an operation can consume -/
@@ -144,6 +148,16 @@ theorem io_step_refines {K : Bytes → Prop} (β : Bytes → Nat) (hG : ∀ k, K
   | itemsTop _ => simp [specIo] at hspec
   | fullItems _ => simp [specIo] at hspec
   | trim _ => simp [specIo] at hspec
+  | bad p k =>
+    simp only [specIo] at hspec
+    split at hspec
+    · cases hspec
+    · rename_i hc
+      simp only [Option.some.injEq, Prod.mk.injEq] at hspec
+      obtain ⟨rfl, rfl⟩ := hspec
+      have hv := hvk k (hkey k rfl)
+      refine ⟨db, ?_, hr⟩
+      cases set <;> simp [step, kindOf, hc, hv]
   | add k v =>
     have hk := hkey k rfl
     have hnc := hNC k hk
